@@ -79,6 +79,22 @@ class Detached:
         return repr(sorted((c,) + v for c, v in self.want.items()))
 
 
+class Links:
+    """Expected (map, name, kind, child, child.parent, child.key) entries; back-links at `stale` places are free."""
+
+    def __init__(self, want, stale):
+        self.want, self.stale = want, stale
+
+    def _mask(self, entries):
+        return sorted(e[:4] + ('*', '*') if (e[0], e[1], e[3]) in self.stale else tuple(e) for e in entries)
+
+    def __call__(self, obs):
+        return self._mask(obs) == self._mask(self.want)
+
+    def __repr__(self):
+        return repr(self._mask(self.want))
+
+
 class Env:
     pass
 
@@ -469,7 +485,10 @@ class ResourcesAdapter:
         for m in maps:
             links += [(m, n, 'm', c, parent[c], key[c]) for n, c in maps[m].items()]
             links += [(m, n, 'h', c, parent[c], key[c]) for n, c in vis[m].items()]
-        exp = {'den_get': den, 'links': tuple(sorted(links)),
+        # a place a later assignment superseded: the node records the later place (or a leftover of it) — only the
+        # entry itself is compared there
+        stale = {(t[0], t[1], t[2]) for t in post['stale']}
+        exp = {'den_get': den, 'links': Links(sorted(links), {(m, n, c) for (m, n, _k, c, _p, _q) in links if (m, n, c) in stale}),
                'wb_layers': tuple((m, tuple(tuple(sorted(l.items())) for l in layers[m])) for m in sorted(layers))}
         if self.probe:
             exp['den_item'] = exp['den_chain'] = exp['den_call'] = den
